@@ -9,7 +9,9 @@ so every case - also a shrunk one - renders to a valid test case with the same d
 
 Independent of the code under test (no exactly_lib import).
 """
-from vlib.ref.c10_model import PHASES, string_chunks
+import shlex
+
+from vlib.ref.c10_model import PHASES, string_chunks, Model
 
 PROBE_CMD = '{PY} {PROBE} {OBS}/%s'
 EXE_NAME = 'bin/probe'
@@ -83,8 +85,9 @@ def r_args(args, last=None, cont=None):
     return lines
 
 
-def r_shell(sh):
-    """sh = dict(words=[word], seps=[separator strings]); word = [[style, pieces], ...] style u/s/d"""
+def r_shell(sh, plain_c=False):
+    """sh = dict(words=[word], seps=[separator strings]); word = [[style, pieces], ...] style u/s/d/c
+    plain_c: command substitutions replaced by their value (harness self check)"""
     out = []
     seps = sh.get('seps') or []
     for i, w in enumerate(sh['words']):
@@ -92,15 +95,23 @@ def r_shell(sh):
             out.append(seps[i - 1] if i - 1 < len(seps) and seps[i - 1] else ' ')
         for style, pieces in w:
             tx = r_pieces(pieces)
-            out.append(tx if style == 'u' else ("'%s'" % tx if style == 's' else '"%s"' % tx))
+            out.append(tx if style == 'u' else "'%s'" % tx if style == 's' else '"%s"' % tx if style == 'd'
+                       else (tx if plain_c else '$(echo %s)' % tx))
     return ''.join(out) + (sh.get('trail') or '')
+
+
+def r_shell_cmd(probe, sh):
+    """the SHELL-COMMAND-LINE that starts the probe with the words of `sh` as arguments"""
+    return (sh.get('pre') or '') + PROBE_CMD % probe + ' ' + r_shell(sh) + (sh.get('post') or '')
 
 
 # ---- programs --------------------------------------------------------------------
 def r_head(h):
     k = h['k']
     if k == 'sys':
-        return '% ' + PROBE_CMD % h['probe']
+        v = h.get('variant', 'plain')
+        py = '{PY}' if v == 'plain' else '"{PY}"' if v == 'soft' else '@[%s]@' % v
+        return '%% %s {PROBE} {OBS}/%s' % (py, h['probe'])
     if k == 'py':
         return '-python {PROBE} {OBS}/%s' % h['probe']
     if k == 'exe':
@@ -113,7 +124,7 @@ def r_head(h):
             return '@[EXE_PATH]@ {OBS}/%s' % h['probe']
         return '%s%s {OBS}/%s' % (REL_OPT[v], EXE_NAME, h['probe'])
     if k == 'shell':
-        return '$ ' + PROBE_CMD % h['probe']
+        return '$ ' + r_shell_cmd(h['probe'], h['sh'])
     if k == 'sym':
         return '@ ' + h['n']
     raise ValueError(k)
@@ -128,7 +139,7 @@ def _join(first, lines):
 def r_program(p):
     h = p['head']
     if h['k'] == 'shell':
-        lines = [r_head(h) + ' ' + r_shell(h['sh'])]
+        lines = [r_head(h)]
     else:
         lines = _join(r_head(h), r_args(p.get('args', []), p.get('last'), p.get('cont')))
     if p.get('stdin'):
@@ -229,7 +240,13 @@ def r_instr(ins, files):
     if k == 'sys':
         return _join('% ' + PROBE_CMD % ins['probe'], r_args(ins['args'], ins.get('last'), ins.get('cont')))
     if k == 'shell':
-        return ['$ ' + PROBE_CMD % ins['probe'] + ' ' + r_shell(ins['sh'])]
+        return ['$ ' + r_shell_cmd(ins['probe'], ins['sh'])]
+    if k == 'filefrom':
+        opt = '-%s-from%s' % (ins['chan'], ' -ignore-exit-code' if ins.get('ignore') else '')
+        lines = _join(opt, r_program(ins['p']))
+        if ins.get('paren'):
+            lines = _join('(', lines) + ['  )']
+        return _join('file %s%s =' % ('' if ins['rel'] == 'cd' else REL_OPT[ins['rel']], ins['name']), lines)
     if k == 'from':
         what = ins['what']
         name = {'exit': 'exit-code', 'stdout': 'stdout', 'stderr': 'stderr'}[what]
@@ -239,6 +256,25 @@ def r_instr(ins, files):
         m = _claim_text(ins['claim'], files, ins.get('via'))
         return lines + ['    ' + m[0]] + m[1:]
     raise ValueError(k)
+
+
+def _chain_names(case, p):
+    """names of the program symbols that the program is defined through (definition order)"""
+    by_name = {d['n']: d['p'] for d in case.get('pgms', [])}
+    names = []
+    while p['head']['k'] == 'sym':
+        names.insert(0, p['head']['n'])
+        p = by_name[p['head']['n']]
+    return names
+
+
+def r_instr_w_defs(case, ins, files):
+    lines = []
+    if ins.get('local_defs'):
+        by_name = {d['n']: d['p'] for d in case.get('pgms', [])}
+        for n in _chain_names(case, ins['p']):
+            lines += _join('def program %s =' % n, r_program(by_name[n]))
+    return lines + r_instr(ins, files)
 
 
 def r_claim(claim, files):
@@ -262,6 +298,19 @@ def r_interpreter(act):
     return {'sys': '% {PY}', 'py': '-python', 'exe': '{PY}'}[act.get('interp', 'sys')]
 
 
+def r_cli_args(case):
+    """-> command line arguments (before the test case file) that the case denotes: `--actor COMMAND-LINE`
+    ("a command line (with optional arguments), using Unix shell syntax"; the source interpreter actor)"""
+    act = case.get('act')
+    if not act or act.get('via') != 'cli':
+        return []
+    if act['variant'] == 'probe-is-interpreter':
+        words = ['{PY}', '{PROBE}', '{OBS}/' + act['probe']] + Model(case).args_value(act.get('iargs', []))
+    else:
+        words = ['{PY}']
+    return ['--actor', ' '.join(shlex.quote(w) for w in words)]
+
+
 SOURCE_PY = ['import sys', 'sys.argv[1:] = %s', "exec(compile(open('{PROBE}').read(), '{PROBE}', 'exec'))"]
 
 
@@ -281,8 +330,17 @@ def r_case(case):
             actor = 'source ' + r_interpreter(act)
         elif k == 'null' and act.get('explicit_actor', True):
             actor = 'null'
-    if actor:
+    if actor and act.get('via') == 'suite':
+        files['exactly.suite'] = '[conf]\nactor = %s\n' % actor
+    elif actor and act.get('via') == 'cli':
+        pass  # r_cli_args
+    elif actor:
         lines += ['[conf]', 'actor = ' + actor, '']
+    local = set()
+    for ph in PHASES:
+        for ins in case.get('phases', {}).get(ph, []):
+            if ins.get('local_defs'):
+                local.update(_chain_names(case, ins['p']))
     lines.append('[setup]')
     for d in case.get('dirs', []):
         lines.append('dir %s%s' % (REL_OPT[d[0]], d[1]))
@@ -291,12 +349,13 @@ def r_case(case):
     for d in case.get('tsyms', []):
         lines += _join('def text-source %s =' % d['n'], r_ts(d['ts'], bool(d.get('paren'))))
     for d in case.get('pgms', []):
-        lines += _join('def program %s =' % d['n'], r_program(d['p']))
+        if d['n'] not in local:
+            lines += _join('def program %s =' % d['n'], r_program(d['p']))
     if case.get('setup_stdin'):
         lines += _join('stdin =', r_ts(case['setup_stdin'], bool(case['setup_stdin'].get('paren'))))
     phases = case.get('phases', {})
     for ins in phases.get('setup', []):
-        lines += r_instr(ins, files)
+        lines += r_instr_w_defs(case, ins, files)
     lines.append('')
     if act and not (act['k'] == 'null' and act.get('absent')):
         lines.append('[act]')
@@ -323,18 +382,18 @@ def r_case(case):
     if phases.get('before-assert'):
         lines.append('[before-assert]')
         for ins in phases['before-assert']:
-            lines += r_instr(ins, files)
+            lines += r_instr_w_defs(case, ins, files)
         lines.append('')
     if case.get('claims') or phases.get('assert'):
         lines.append('[assert]')
         for c in case.get('claims', []):
             lines += r_claim(c, files)
         for ins in phases.get('assert', []):
-            lines += r_instr(ins, files)
+            lines += r_instr_w_defs(case, ins, files)
         lines.append('')
     if phases.get('cleanup'):
         lines.append('[cleanup]')
         for ins in phases['cleanup']:
-            lines += r_instr(ins, files)
+            lines += r_instr_w_defs(case, ins, files)
         lines.append('')
     return '\n'.join(lines) + '\n', files
